@@ -104,7 +104,7 @@ def run(run):
             seen.add(st)
             queue.append((st, 0, []))
     expanded = 0
-    while queue and expanded < max_states:
+    while queue and expanded < max_states and run.time_left():
         st, depth, hist = queue.popleft()
         expanded += 1
         t = defs.triple_of_state(st)
@@ -126,6 +126,9 @@ def run(run):
     big_p = ['p%d' % i for i in range(8)]
     n_hist = 120 if run.tier == 'quick' else 3000
     for h in range(n_hist):
+        if not run.time_left():
+            run.notes.append('random histories stopped at the deadline after %d' % h)
+            break
         if h % 3 == 0:
             d = Definition()
             hist = [defs.dnew_line(0, (), (), ())]
